@@ -558,6 +558,7 @@ int main(int argc, char** argv)
     double scale = argval<double>(kv, "scale", 1.0);
     int dets = argval<int>(kv, "dets", 1);  // callbacks with detector maps
     int diag = argval<int>(kv, "diag", 1);  // ActionDiagnostic + StepDiagnostic
+    int killat = argval<int>(kv, "killat", 0);  // call Stepper::kill_active() after k iterations of each event
     std::string script_path = argval<std::string>(kv, "script", "");  // scripted physics (replay of a TLC behaviour)
     verif::Script script;
     json script_json;
@@ -861,6 +862,22 @@ int main(int argc, char** argv)
             while (r)
             {
                 ++k;
+                if (killat > 0 && k == killat)
+                {
+                    stepper.kill_active();
+                    json ch = json::array();
+                    auto& cs = dynamic_cast<CoreStateHost&>(*stepper.sp_state());
+                    for (size_type i = 0; i < nslots; ++i)
+                    {
+                        json pj = project_slot(*prob.core, cs, TrackSlotId{i}, rec);
+                        if (pj != sh.prev_slots[i])
+                        {
+                            ch.push_back(pj);
+                            sh.prev_slots[i] = pj;
+                        }
+                    }
+                    rec.add({{"e", "KillActive"}, {"changed", ch}});
+                }
                 if (inflight > 0 && k == inflight && e < nevents)
                 {
                     r = do_step(&primaries[e]);
